@@ -214,4 +214,18 @@ theorem sq_homogeneous_of_exact (sq : Rat → Rat) (s x : Rat) (hs : 0 < s) (h1 
     have : s * sq x = 0 := by linarith
     linarith
 
+/-! ## the decidable form of the mesh invariant (for concrete examples) -/
+
+theorem mesh_inv_of_invB (m : Mesh) (h : m.invB = true) : m.Inv := by
+  unfold Mesh.invB Region.invB at h
+  simp only [Bool.and_eq_true, decide_eq_true_eq, Bool.not_eq_true'] at h
+  obtain ⟨⟨⟨⟨⟨⟨⟨h1, h2⟩, h3⟩, h4⟩, h5⟩, h6⟩, h7⟩, h8⟩ := h
+  refine ⟨⟨h1, h2, h3, h4, h5, ?_⟩, h7, ?_⟩
+  · intro a ha
+    have := (allLt_iff _ _).mp h6 a ha
+    simpa using this
+  · intro a ha
+    have := (allLt_iff _ _).mp h8 a ha
+    simpa using this
+
 end DFV.C19
